@@ -4,13 +4,13 @@
 # of /verif whose go.mod points at that worktree. /repo and /verif are not touched, so this can run while something else
 # uses /repo. The result that counts is still the one of tools/seed_eval.sh / tools/seeded_all.sh (patch applied to /repo).
 set -u
-P=$(readlink -f "$1"); shift
+P=$1; [ "$P" != none ] && P=$(readlink -f "$1"); shift   # "none": the unchanged tree
 export GOFLAGS=-mod=mod GOPROXY=off GOSUMDB=off GOTOOLCHAIN=local
 K=$$
 WT=/tmp/se-wt-$K; VF=/tmp/se-vf-$K
 trap 'git -C /repo worktree remove --force $WT 2>/dev/null; rm -rf $VF' EXIT
 git -C /repo worktree add -q --detach $WT ${BASE_REV:-HEAD} || exit 2
-if ! git -C $WT apply "$P"; then echo "patch does not apply"; exit 2; fi
+if [ "$P" != none ] && ! git -C $WT apply "$P"; then echo "patch does not apply"; exit 2; fi
 mkdir -p $VF
 rsync -a --exclude .build --exclude .scratch --exclude seeded --exclude evidence --exclude replays --exclude .git /verif/ $VF/
 cd $VF
@@ -18,6 +18,6 @@ go mod edit -replace github.com/brutella/hc=$WT
 export VERIF_REPO=$WT
 for c in "$@"; do
   o=$(./run.sh $c ${TIER:-quick} 2>&1); rc=$?
-  echo "$c rc=$rc"
+  echo "$c rc=$rc"; echo "$o" | grep -E "^$c (quick|thorough):" | cut -c1-200
   echo "$o" | grep -E "what:|INFRA|VIOLATION|KNOWN" | head -${LINES_MAX:-4} | cut -c1-300
 done
